@@ -3,6 +3,7 @@ package rag
 import (
 	"fmt"
 	"strings"
+	"unicode"
 	"unicode/utf8"
 )
 
@@ -576,10 +577,13 @@ func (sc *SizeCalculator) SplitToSize(text string, boundaries []Boundary) []stri
 		if chunk != "" {
 			chunks = append(chunks, chunk)
 		}
-		remaining = strings.TrimSpace(remaining[splitPos:])
+		rest := remaining[splitPos:]
+		remaining = strings.TrimSpace(rest)
 
-		// Update boundary positions for remaining text
-		boundaries = adjustBoundaryPositions(boundaries, splitPos)
+		// Update boundary positions for remaining text: it starts behind the
+		// split position and behind the white space trimmed in front of it
+		leading := len(rest) - len(strings.TrimLeftFunc(rest, unicode.IsSpace))
+		boundaries = adjustBoundaryPositions(boundaries, splitPos+leading)
 	}
 
 	return chunks
